@@ -37,6 +37,18 @@ fn make<C: GenericConfig<D, F = F>>(seed: u64, case: u64) -> Result<Proven<C>, S
         _ => FriReductionStrategy::Fixed((0..rng.gen_range(0..=4)).map(|_| rng.gen_range(1..=3)).collect()),
     };
     config.zero_knowledge = case % 7 == 3;
+    if config.zero_knowledge {
+        // Blinding needs (queries x coset size) + openings fresh rows per polynomial *after* the last
+        // fold: deep Fixed schedules with many queries push the builder's degree search to 2^25 rows and
+        // beyond (tens of GB) or make it give up. Those configurations are C01's subject; here zero
+        // knowledge keeps moderate query counts and shallow schedules.
+        config.fri_config.num_query_rounds = config.fri_config.num_query_rounds.min(32);
+        if let FriReductionStrategy::Fixed(v) = &config.fri_config.reduction_strategy {
+            if v.iter().sum::<usize>() > 2 {
+                config.fri_config.reduction_strategy = FriReductionStrategy::ConstantArityBits(1 + (case % 2) as usize, 2);
+            }
+        }
+    }
     config.security_bits = 20;
     circ::make_proven::<C>(prog, inputs, config)
 }
